@@ -497,7 +497,7 @@ def main(chk):
                 'neighbours, 1 in 7 configurations is invalid (validation enum compared); kept tags compared exactly with the Lean model, all columns of kept rows '
                 'compared with the input, inverse partitions and chained selections run on the implementation. non-trivial = ≥ 2 criteria, some rows kept and some dropped')
     chk.assumptions = TRUSTED
-    chk.lean(['IxpeVerif.Props.C09', 'IxpeVerif.Props.Audit.C09'], ['channel_to_energy', 'time_selection_mask', 'phase_selection_mask'])
+    chk.lean(['IxpeVerif.Props.C09', 'IxpeVerif.Props.Audit.C09'], ['channel_to_energy', 'time_selection_mask', 'phase_selection_mask', 'select_row'])
     import corr_gen
     corr_gen.run(chk, ['channel_to_energy', 'energy_to_channel'], n=100, tag='C09')
     n = 80 if chk.tier == 'quick' else 1500
